@@ -2,6 +2,7 @@ package main
 
 import (
 	"fmt"
+	"go/ast"
 	"go/token"
 	"go/types"
 	"sort"
@@ -20,11 +21,15 @@ func runC01(p *Program, r *Report) {
 	r.Rule("R01.3", "E4", 8, "translator handler selection: each TranslatorService.{Encrypt,Decrypt}[Sym][Searchable] obtains its handler with the envelope-id constant of its own kind (AcraBlock for Sym, AcraStruct otherwise) and passes that handler to the registry call")
 	r.Rule("R01.4", "E4", 20, "all entry points are one operation: every gRPC method and every HTTP handler reaches envelope code only through the ITranslatorService method of the same operation; none creates envelopes or reads keys itself")
 	r.Rule("R01.5", "E3", 2, "old-container kind detection: matchOldContainer returns the AcraStruct id only on the success edge of the AcraStruct validator and the AcraBlock id only on the success edge of the AcraBlock extractor")
+	r.Rule("R01.6", "E1", 8, "byte-by-byte resynchronisation: in the three tag scanners (EnvelopeDetector.OnColumn, ProcessAcraStructs, ProcessAcraBlocks) the input cursor only ever moves to a found tag position, forward by exactly one byte (nothing recognised there), or forward by an envelope length parsed from the data at the cursor; any other step (a constant > 1, the tag length) can jump over the start of a real envelope that overlaps a tag look-alike")
+	r.Rule("R01.7", "E3", 3, "searchable-reveal state hygiene: every exit of hmac.Processor.OnColumn (re)defines the armed hash (field hashData): it is either cleared or armed for the value just seen; an exit that leaves the previous value's hash armed makes the next column of the session be verified against a stale hash (own values come back as ciphertext) or dereference a cleared matchedHash")
 	ruleR011(p, r)
 	ruleR012(p, r)
 	ruleR013(p, r)
 	ruleR014(p, r)
 	ruleR015(p, r)
+	ruleR016(p, r)
+	ruleHmacProcessorState(p, r, "R01.7")
 }
 
 type envKind int
@@ -622,4 +627,229 @@ func init() {
 	mut("C01", "DecryptSym asks for the AcraStruct handler", "cmd/acra-translator/common/service.go", "	handler, err := crypto.GetHandlerByEnvelopeID(crypto.AcraBlockEnvelopeID)\n	if err != nil {\n		return nil, ErrCantDecrypt\n	}\n\n	decrypted, err := service.handler.DecryptWithHandler(handler, acraBlock, dataContext)", "	handler, err := crypto.GetHandlerByEnvelopeID(crypto.AcraStructEnvelopeID)\n	if err != nil {\n		return nil, ErrCantDecrypt\n	}\n\n	decrypted, err := service.handler.DecryptWithHandler(handler, acraBlock, dataContext)", "R01.3", "DecryptSym")
 	mut("C01", "HTTP encryptSym builds the block itself", "cmd/acra-translator/http_api/service.go", "encryptedData, err := service.service.EncryptSym(service.ctx, request.Data, connectionClientID, nil)", "encryptedData, err := service.translatorData.Keystorage.GetClientIDSymmetricKey(connectionClientID)", "R01.4", "_encryptSym")
 	mut("C01", "old-container matcher swaps the ids", "crypto/registry_handler.go", "		return AcraStructEnvelopeID, acrastruct.GetDataLengthFromAcraStruct(data) + acrastruct.GetMinAcraStructLength(), nil", "		return AcraBlockEnvelopeID, acrastruct.GetDataLengthFromAcraStruct(data) + acrastruct.GetMinAcraStructLength(), nil", "R01.5", "matchOldContainer")
+}
+
+// ruleR016: cursor arithmetic of the tag scanners.
+func ruleR016(p *Program, r *Report) {
+	for _, spec := range []string{"crypto.(*EnvelopeDetector).OnColumn", "acrastruct.ProcessAcraStructs", "acrablock.ProcessAcraBlocks"} {
+		fn := p.Func(spec)
+		if fn == nil || fn.Blocks == nil {
+			r.Anchor("R01.6", spec)
+			continue
+		}
+		in := paramByName(fn, "inBuffer")
+		if in == nil {
+			r.Anchor("R01.6", spec+" parameter inBuffer")
+			continue
+		}
+		name := fnName(fn)
+		// cursor phis: integer phis used as the low bound of a slice of inBuffer
+		cursor := map[ssa.Value]bool{}
+		for _, b := range fn.Blocks {
+			for _, ins := range b.Instrs {
+				sl, ok := ins.(*ssa.Slice)
+				if !ok || sl.X != ssa.Value(in) || sl.Low == nil {
+					continue
+				}
+				if ph, ok := sl.Low.(*ssa.Phi); ok {
+					cursor[ph] = true
+				}
+			}
+		}
+		if len(cursor) == 0 {
+			r.Bad("R01.6", name, "scan cursor", p.Pos(fn.Pos()), "no cursor into inBuffer found: the scanner has changed shape and the rule cannot follow it")
+			continue
+		}
+		// close over phis feeding each other
+		for changed := true; changed; {
+			changed = false
+			for c := range cursor {
+				ph, ok := c.(*ssa.Phi)
+				if !ok {
+					continue
+				}
+				for _, e := range ph.Edges {
+					if ep, ok := e.(*ssa.Phi); ok && !cursor[ep] {
+						cursor[ep] = true
+						changed = true
+					}
+				}
+			}
+		}
+		fromData := func(v ssa.Value) bool {
+			// parsed from the input at the cursor: computed by a call that is given (a slice of) inBuffer
+			for x := range backClosure(v) {
+				if c, ok := x.(*ssa.Call); ok {
+					if _, isB := c.Call.Value.(*ssa.Builtin); isB {
+						continue
+					}
+					for _, a := range c.Call.Args {
+						for y := range backClosure(a) {
+							if y == ssa.Value(in) {
+								return true
+							}
+						}
+					}
+				}
+			}
+			return false
+		}
+		seenStep := map[ssa.Value]bool{}
+		var judge func(v ssa.Value)
+		judge = func(v ssa.Value) {
+			if seenStep[v] || cursor[v] {
+				return
+			}
+			seenStep[v] = true
+			if c, ok := v.(*ssa.Const); ok {
+				r.Check(c.Int64() == 0, "R01.6", name, "cursor start "+c.String(), p.Pos(fn.Pos()), "scan starts at 0", "cursor initialised to a non-zero constant")
+				return
+			}
+			bo, ok := v.(*ssa.BinOp)
+			if !ok || bo.Op != token.ADD {
+				r.Bad("R01.6", name, "cursor := "+v.String(), p.Pos(v.Pos()), "cursor is set by something other than an addition to the previous position")
+				return
+			}
+			x, y := bo.X, bo.Y
+			isCur := func(v ssa.Value) bool {
+				if cursor[v] {
+					return true
+				}
+				if b2, ok := v.(*ssa.BinOp); ok && seenStep[b2] {
+					return true
+				}
+				return false
+			}
+			// found-position form: bytes.Index(inBuffer[cursor:], tag) + cursor
+			if c, ok := x.(*ssa.Call); ok && isCur(y) {
+				if co := calleeOfCommon(c.Common()); co != nil && co.FullName() == "bytes.Index" {
+					r.OK("R01.6", name, "cursor = found tag position", p.Pos(v.Pos()), "bytes.Index offset + cursor")
+					return
+				}
+			}
+			if !isCur(x) {
+				// x may itself be a step (t22 + 1)
+				if xb, ok := x.(*ssa.BinOp); ok {
+					judge(xb)
+					if !seenStep[xb] {
+						r.Bad("R01.6", name, "cursor step base", p.Pos(v.Pos()), "step is not relative to the cursor")
+						return
+					}
+				} else {
+					r.Bad("R01.6", name, "cursor step base "+x.Name(), p.Pos(v.Pos()), "step is not relative to the cursor")
+					return
+				}
+			}
+			construct := "cursor += " + stepText(p, y)
+			switch yc := y.(type) {
+			case *ssa.Const:
+				r.Check(yc.Int64() == 1, "R01.6", name, construct, p.Pos(v.Pos()), "resynchronise one byte further", "after a failed recognition the scanner skips more than one byte: an envelope starting inside the skipped bytes (e.g. right after a run of tag-like '%' characters) is never found")
+			default:
+				if fromData(y) {
+					r.OK("R01.6", name, construct, p.Pos(v.Pos()), "advance by a length parsed from the data at the cursor")
+				} else {
+					r.Bad("R01.6", name, construct, p.Pos(v.Pos()), "the scanner advances by an amount that is neither 1 nor a length parsed from the envelope at the cursor: bytes that may start a real envelope are skipped")
+				}
+			}
+		}
+		for c := range cursor {
+			if ph, ok := c.(*ssa.Phi); ok {
+				for _, e := range ph.Edges {
+					judge(e)
+				}
+			}
+		}
+	}
+}
+
+func stepText(p *Program, v ssa.Value) string {
+	if c, ok := v.(*ssa.Const); ok {
+		return c.Value.String()
+	}
+	if c, ok := v.(*ssa.Call); ok {
+		return callText(p, c)
+	}
+	if ex, ok := v.(*ssa.Extract); ok {
+		if c, ok := ex.Tuple.(*ssa.Call); ok {
+			return fmt.Sprintf("result %d of %s", ex.Index, callText(p, c))
+		}
+	}
+	return "computed length"
+}
+
+// ruleHmacProcessorState: every exit of Processor.OnColumn defines hashData.
+func ruleHmacProcessorState(p *Program, r *Report, rule string) {
+	fn := p.Func("hmac.(*Processor).OnColumn")
+	if fn == nil || fn.Blocks == nil {
+		r.Anchor(rule, "hmac.(*Processor).OnColumn")
+		return
+	}
+	stores := storesToRecvField(fn, "hashData")
+	// stores made by callees on the same receiver (helper such as resetMatchedHash) count at the call site
+	var events []ssa.Instruction
+	for _, s := range stores {
+		events = append(events, s)
+	}
+	for _, cs := range callsIn(fn) {
+		callee := cs.Instr.Common().StaticCallee()
+		if callee == nil || callee.Blocks == nil || len(cs.Instr.Common().Args) == 0 || cs.Instr.Common().Args[0] != ssa.Value(fn.Params[0]) {
+			continue
+		}
+		if len(storesToRecvField(callee, "hashData")) > 0 && len(exitsWithoutEvent(callee, toInstrs(storesToRecvField(callee, "hashData")))) == 0 {
+			events = append(events, cs.Instr.(ssa.Instruction))
+		}
+	}
+	if len(events) == 0 {
+		r.Bad(rule, fnName(fn), "stores to hashData", p.Pos(fn.Pos()), "the processor no longer maintains hashData here; the rule cannot follow the state")
+		return
+	}
+	bad := exitsWithoutEvent(fn, events)
+	badSet := map[*ssa.Return]bool{}
+	for _, b := range bad {
+		badSet[b] = true
+	}
+	for _, ret := range returnsOf(fn) {
+		if isRecoverBlock(ret.Block()) {
+			continue
+		}
+		construct := "exit " + retText(p, ret)
+		r.Check(!badSet[ret], rule, fnName(fn), construct, p.Pos(ret.Pos()), "hashData is cleared or re-armed on every path to this exit", "this exit can be reached without touching hashData: the hash armed for the previous value stays in force for the next column")
+	}
+}
+
+func toInstrs(s []*ssa.Store) []ssa.Instruction {
+	var out []ssa.Instruction
+	for _, x := range s {
+		out = append(out, x)
+	}
+	return out
+}
+
+// retText renders the source text of a return statement (stable key: no line numbers).
+func retText(p *Program, ret *ssa.Return) string {
+	pos := ret.Pos()
+	if !pos.IsValid() {
+		return "return"
+	}
+	if p.retIdx == nil {
+		p.retIdx = map[token.Pos]string{}
+		for _, pk := range p.Acra {
+			for _, f := range pk.Syntax {
+				ast.Inspect(f, func(n ast.Node) bool {
+					if rs, ok := n.(*ast.ReturnStmt); ok {
+						var parts []string
+						for _, e := range rs.Results {
+							parts = append(parts, types.ExprString(e))
+						}
+						p.retIdx[rs.Return] = "return " + strings.Join(parts, ", ")
+					}
+					return true
+				})
+			}
+		}
+	}
+	if s, ok := p.retIdx[pos]; ok {
+		return s
+	}
+	return "return"
 }
